@@ -104,3 +104,29 @@ def analyse(C, main):
     if v == "holds" and touched:
         return {"verdict": "violated", "why": "the sorted vector is modified before printing (%s)" % touched[0]["n"], "printed_is_var": True, "sort_site": site}
     return {"verdict": v, "why": why + (" (sorted in %s)" % g["name"] if v == "holds" else ""), "printed_is_var": True, "sort_site": site}
+
+
+def dedup_ordered(F, fn):
+    """How does fn de-duplicate the warnings it drains from its channel?  (verdict, why)
+    holds: they are stored in a BTreeMap (insert / extend / collect) -- ordered, last one per key wins;
+    violated: stored in a hash map (iteration order depends on the hash seed) or only pushed to a vector (no de-duplication)."""
+    stores = []
+    for x in T.walk_fn(F, fn):
+        if x.get("k") != "Call" or "f" not in x:
+            continue
+        if x["n"] in ("insert", "extend", "entry", "push", "append") and x.get("a"):
+            ty = F.ty(T.peel(x["a"][0])) or F.ty(x["a"][0]) or ""
+            if "CweWarning" in ty:
+                stores.append((x["n"], ty, x))
+        elif x["n"] == "collect":
+            ty = F.ty(x) or ""
+            if "CweWarning" in ty and ("Map<" in ty):
+                stores.append(("collect", ty, x))
+    maps = [s_ for s_ in stores if "Map<" in s_[1]]
+    if any("HashMap" in s_[1] for s_ in maps):
+        return "violated", "warnings are de-duplicated in a hash map", maps[0][2]
+    if any("BTreeMap" in s_[1] for s_ in maps):
+        return "holds", "", maps[0][2]
+    if stores:
+        return "violated", "warnings are only collected into %s, not de-duplicated per source address" % stores[0][1].split("<")[0], stores[0][2]
+    return "undecided", "no container of warnings found", None
